@@ -164,8 +164,11 @@ def analyse(case, cfg, frames, res, add):
                 add("train-not-complement", f"model {i+1}: training rows differ from the other folds' rows "
                     f"(missing {len((allkeys - set(F[i])) - T[i])}, extra {len(T[i] - (allkeys - set(F[i])))})")
     # (4) returned score belongs to its row
-    feat_fallback = all(np.array_equal(np.asarray(s).ravel(), df["f_key"].values) or
-                        np.array_equal(np.asarray(s).ravel(), df["f2"].values)
+    def _same(a, b):  # a feature read back from text may differ from the generated value in the last bit
+        a = np.asarray(a, dtype=float).ravel()
+        return a.shape == b.shape and np.allclose(a, b, rtol=1e-12, atol=0)
+
+    feat_fallback = all(_same(s, df["f_key"].values.astype(float)) or _same(s, df["f2"].values.astype(float))
                         for s, (df, _) in zip(scores, frames))
     if feat_fallback:
         return "result_fallback"
